@@ -53,6 +53,7 @@ def main():
             rcb, ob = sh(["python3", str(VERIF / "tools" / "baseline.py"), str(wt)], timeout=3600)
             out["baseline_ok"] = rcb == 0
             out["baseline"] = ob.strip().splitlines()[0] if ob.strip() else ""
+            out["baseline_missing"] = [l.strip() for l in ob.splitlines() if "MISSING" in l][:10]
         ev = tempfile.mkdtemp(prefix="ev-evidence-")
         cenv = dict(os.environ, VERIF_REPO=str(wt), VERIF_EVIDENCE_DIR=ev)
         rcc, oc = sh(["python3", "-m", "sa.check", "all"], cwd=VERIF, env=cenv, timeout=1800)
